@@ -30,6 +30,20 @@ pub fn run(thorough: bool, seed: u64, _replay: Option<String>) -> Report {
     let n = if thorough { 1200 } else { 150 };
     let mut contents: Vec<(Vec<u8>, Sett, String)> = vec![];
     contents.push((vec![], Sett::default(), "empty".into()));
+    // empty and one-byte files under settings that name an unknown encoding (include / exclude): the same error as for the bytes
+    for (k, b) in [vec![], vec![b'a'], vec![]].into_iter().enumerate() {
+        let mut s = Sett::default();
+        if k % 2 == 0 {
+            s.incl = vec!["utf-8".into(), "not-a-code-page".into()];
+        } else {
+            s.excl = vec!["klingon-8".into()];
+        }
+        if k == 2 {
+            s.incl = vec![];
+            s.excl = vec!["utf-8".into(), "ascii".into()];
+        }
+        contents.push((b, s, format!("tiny-unknown-or-excluding-filter:{}", k)));
+    }
     contents.push((vec![b'a'], Sett::default(), "one-byte".into()));
     for len in [999_999usize, 1_000_000, 1_000_001, 500_000, 500_001] {
         if !thorough && len != 1_000_001 {
@@ -199,6 +213,25 @@ pub fn run(thorough: bool, seed: u64, _replay: Option<String>) -> Report {
         let _ = std::fs::set_permissions(&secret, std::fs::Permissions::from_mode(0o600));
     }
     let _ = std::fs::remove_dir_all(&dir);
+    // files whose metadata reports a size of 0 although reading them yields content (procfs): the result is that of the
+    // bytes read, not of "an empty file" (skipped where /proc is not available; only files with stable content)
+    for p in ["/proc/version", "/proc/filesystems", "/proc/sys/kernel/ostype"] {
+        let path = std::path::Path::new(p);
+        if let (Ok(a), Ok(b)) = (std::fs::read(path), std::fs::read(path)) {
+            if a != b || a.is_empty() {
+                continue;
+            }
+            let s = Sett::default();
+            let via_path = real_from_path(path, &s);
+            let via_bytes = real_detect(&a, &s);
+            rep.evaluations += 1;
+            rep.oracle_checked += 1;
+            rep.count("file:reports-size-zero");
+            if via_path != via_bytes {
+                rep.fail("oracle", "C14:path-result-differs-from-bytes-result", &format!("{} (metadata reports {} bytes, reading yields {}): from_path: {} || from_bytes: {}", p, std::fs::metadata(path).map(|m| m.len()).unwrap_or(0), a.len(), via_path.show(), via_bytes.show()), &a, Some(&s), "procfs");
+            }
+        }
+    }
     rep.model_rounds = drv.requests;
     rep
 }
